@@ -14,7 +14,7 @@ use serde_json::{json, Value};
 pub const META: Meta = Meta {
     id: "C07",
     level: "fault_enumeration",
-    rule: "Fault enumeration: range lengths 1..=8 (thorough 10) x every composition of the range into <= 4 (thorough 5) chunks x fault kind {early end, error, one extra byte in chunk i, one extra chunk, none} x every chunk index x filler {none, Pending before the fault, empty chunk before the fault} x response shape {200, single 206, multipart with 2-3 parts and the fault in each part}; plus proptest over longer ranges, up to 8 parts and faults in several parts. Oracle: against the fault-free twin of the same case: delivered bytes are a prefix of the twin's body and never exceed the announced length; short/failing stream => first terminal event is an error (the injected one for entity errors), never a clean end; over-long stream => nothing beyond the announced length and an error when polled past it; fault-free with fillers => clean end with exact bytes. Non-trivial = the injected fault was actually reached by the drain; distinct by fingerprint of the case.",
+    rule: "Fault enumeration: range lengths 1..=8 (thorough 10) x every composition of the range into <= 4 (thorough 5) chunks x fault kind {early end, error, 1-3 extra bytes in chunk i, one extra chunk, an error after the last byte, none} x every chunk index x filler {none, Pending before the fault, empty chunk before the fault, Pending / empty 'tail' steps between the last byte and the end or after-the-end fault} x entity stream variants {contiguous chunks, two-segment chunks, size_hint that counts data chunks, errors that repeat on every further poll} x response shape {200, single 206, multipart with 2-3 parts and the fault in each part}; plus proptest over longer ranges, up to 8 parts and faults in several parts. Oracle: against the fault-free twin of the same case: delivered bytes are a prefix of the twin's body and never exceed the announced length; short/failing stream => first terminal event is an error (the injected one for entity errors), never a clean end; over-long stream => nothing beyond the announced length and an error when polled past it; fault-free with fillers => clean end with exact bytes. Non-trivial = the injected fault was actually reached by the drain; distinct by fingerprint of the case.",
     assumptions: &[
         "harness entity streams are fused after their end or error",
         "the consumer polls until a terminal event (a consumer that stops at Content-Length never sees an extra chunk)",
